@@ -2,6 +2,7 @@
 import re
 from .common import *
 from ..lockset import LockAnalysis
+from ..escape import Escape
 
 EXPLANATION = (
     "Decides the structural clauses of the asynchronous logger for all producers, message sizes and "
@@ -92,6 +93,21 @@ def run(ctx):
               "the queue is used outside the lock only after the flip that took it away from producers",
               "the flusher touches its queue outside the lock before flipping ioTick (producers may still append to it)")
 
+    # ------------------------------------------------ the flusher thread cannot die of an exception (std::terminate loses queued lines)
+    E = Escape(P, cg)
+    n_fl = 0
+    for t_usr, creator, node in cg.thread_roots:
+        if creator.cls != "Oomd::Log":
+            continue
+        n_fl += 1
+        t = P.fns[t_usr]
+        ctx.use(t)
+        esc = E.from_root(t, classes={"explicit", "absent", "text", "strpos", "assert", "shape"})
+        ctx.check(not esc, "flusher-cannot-throw", "E-ESCAPE", t.loc(), "no throw site escapes the flusher thread's entry",
+                  "an exception can escape the flusher thread (std::terminate: accepted lines are never written): " +
+                  "; ".join("%s at %s" % (s_.what, s_.loc()) for s_, _ in esc[:3]), esc[0][1] if esc else None)
+    ctx.counters["flusher_thread_roots"] = n_fl
+    ctx.floor("flusher_thread_roots", 1, "thread started by the Log constructor")
     # ------------------------------------------------ backlog accounting in debugLog
     enq = dbg.calls("emplace_back", "push_back")
     fd = Flow(P, dbg, cg=cg)
